@@ -30,7 +30,7 @@ def run(ctx):
     ctx.harness(binary, ["-plans", pdir, "-out", ctx.path("steps.ndjson"), "-stress", ctx.path("stress.ndjson"),
                          "-seed", ctx.seed, "-rand", ctx.q(108, 2500), "-nstress", ctx.q(10, 150),
                          "-nprobe", ctx.q(5, 40), "-probepairs", ctx.q(60, 300),
-                         "-nlong", ctx.q(12, 150), "-nsim", ctx.q(600, 15000)],
+                         "-nlong", ctx.q(12, 150), "-nretain", ctx.q(12, 60), "-nsim", ctx.q(600, 15000)],
                 traces=[ctx.path("steps.ndjson"), ctx.path("stress.ndjson")])
     steps = ctx.load_traces(ctx.path("steps.ndjson"))
     stress = ctx.load_traces(ctx.path("stress.ndjson"))
